@@ -81,6 +81,10 @@ def blocks(tier, seed):
         n = 4 if (tier == "thorough" or d == 1) else 3
         for cname in ("SphericalDroplet", "DiffuseDroplet"):
             out.append({"kind": "group", "dim": d, "cls": cname, "n": n, "phase": seed % 4})
+    # many droplets merged pairwise in a balanced tree whose intermediate results all stay alive (as when coarsening an emulsion level by level)
+    for d in (1, 2, 3):
+        for cname in ("SphericalDroplet", "DiffuseDroplet"):
+            out.append({"kind": "many", "dim": d, "cls": cname, "phase": seed % 4})
     # histories of merges inside an emulsion (member-wise in place, through the rows of the linked data array, by replacing members)
     for d in (1, 2):
         for cname in ("SphericalDroplet", "DiffuseDroplet"):
@@ -99,6 +103,11 @@ def cases(block):
         for n in range(1, block["depth"] + 1):
             for rest in itertools.product(range(len(EM_OPS)), repeat=n - 1):
                 yield {"kind": "emulsion-history", "dim": d, "cls": cname, "ops": [block["first"]] + list(rest), "phase": block["phase"]}
+        return
+    if block["kind"] == "many":
+        for n in (9, 17, 20, 33, 40, 70, 130):
+            for pattern in ("cycle", "equal", "one-big"):
+                yield {"kind": "many", "dim": d, "cls": cname, "n": n, "pattern": pattern, "phase": block["phase"]}
         return
     P = positions(d, block["phase"])
     if block["kind"] == "pair":
@@ -219,6 +228,52 @@ def run_emulsion_history(case, ctx):
     ctx.count("emulsion-merge-histories")
 
 
+def run_many(case, ctx):
+    d, cname, n = case["dim"], case["cls"], case["n"]
+    radii = {"cycle": [0.5 + 0.25 * (k % 5) for k in range(n)], "equal": [1.0] * n, "one-big": [25.0] + [0.5] * (n - 1)}[case["pattern"]]
+    pts = [[1.5 * k + 0.1 * case["phase"]] + [0.5 * (k % 3), -0.25 * (k % 4)][: d - 1] for k in range(n)]
+    leaves = [make(cname, pts[i], radii[i], 0.5 if i % 2 else 1.0) for i in range(n)]
+    snap = [l.copy() for l in leaves]
+    Vs = [vol(r, d) for r in radii]
+    scale = max(1.0, 1.5 * n)
+
+    def model(idx):
+        V = sum(Vs[i] for i in idx)
+        return V, sum(Vs[i] * np.array(pts[i]) for i in idx) / V
+
+    tags = {"n": n, "cls": cname}
+    # balanced tree; every node (result object, leaf indices) is kept
+    level = [(leaves[i], [i]) for i in range(n)]
+    nodes = []
+    while len(level) > 1:
+        nxt = []
+        for k in range(0, len(level) - 1, 2):
+            (a, ia), (b, ib) = level[k], level[k + 1]
+            m = a.merge(b)
+            ctx.op()
+            nxt.append((m, ia + ib))
+            nodes.append((m, ia + ib, arr(m)))
+        if len(level) % 2:
+            nxt.append(level[-1])
+        level = nxt
+    ctx.count("out-of-place-results-kept-alive", len(nodes))
+    for m, idx, first in nodes:  # judged only now, after ALL later merges have happened
+        V, com = model(idx)
+        ctx.check("C11.grouping", abs(m.volume - V) <= 1e-11 * V and bool(np.all(np.abs(m.position - com) <= 1e-11 * scale)), {"node_leaves": idx, "vol": m.volume, "want": V, "pos": m.position, "com": com, "tree": "balanced"}, tags)
+        ctx.check("C11.result-independent", bool(np.array_equal(arr(m), first, equal_nan=True)), {"node_leaves": idx, "when_created": first, "now": arr(m)}, tags)
+    bufs = [np.asarray(m.data) for m, _, _ in nodes]
+    ctx.check("C11.result-independent", not any(np.shares_memory(bufs[i], bufs[j]) for i in range(len(bufs)) for j in range(i + 1, len(bufs))), {"what": "two results share memory"}, tags)
+    Vt, com = model(list(range(n)))
+    for name, order in (("left-fold", range(n)), ("right-fold", range(n - 1, -1, -1))):
+        order = list(order)
+        acc = leaves[order[0]]
+        for i in order[1:]:
+            acc = acc.merge(leaves[i])
+            ctx.op()
+        ctx.check("C11.grouping", abs(acc.volume - Vt) <= 1e-11 * Vt and bool(np.all(np.abs(acc.position - com) <= 1e-11 * scale)), {"tree": name, "vol": acc.volume, "Vt": Vt}, tags)
+    ctx.check("C11.operands-unmodified", all(same(a, b) for a, b in zip(leaves, snap)), {"path": "many"}, tags)
+
+
 def run_case(case, ctx):
     from droplets import DiffuseDroplet, SphericalDroplet
 
@@ -226,6 +281,8 @@ def run_case(case, ctx):
         return run_emulsion_history(case, ctx)
     d, cname = case["dim"], case["cls"]
     cls = {"SphericalDroplet": SphericalDroplet, "DiffuseDroplet": DiffuseDroplet}[cname]
+    if case["kind"] == "many":
+        return run_many(case, ctx)
     if case["kind"] == "pair":
         (p1, r1, w1), (p2, r2, w2) = case["a"], case["b"]
         a, b = make(cname, p1, r1, w1), make(cname, p2, r2, w2)
@@ -333,4 +390,4 @@ def run_case(case, ctx):
 
 def expected_positive(tier):
     return ["C11.volume", "C11.com", "C11.width-mean", "C11.commutes", "C11.paths-agree", "C11.grouping", "C11.operands-unmodified", "C11.result-independent",
-            "both-positive-distinct", "zero-radius-operand", "C11.emulsion-volume", "C11.emulsion-com", "C11.emulsion-members", "emulsion-merge-histories"]
+            "both-positive-distinct", "zero-radius-operand", "C11.emulsion-volume", "C11.emulsion-com", "C11.emulsion-members", "emulsion-merge-histories", "out-of-place-results-kept-alive"]
